@@ -94,6 +94,9 @@ func faultList(c cfg, K int64) []fault {
 	}
 	add(vsys.CEpollWait, "", true, false, unix.EINTR)
 	add(vsys.CAccept, "", true, true, unix.EINTR, unix.ECONNABORTED, unix.ECONNRESET)
+	// the wake-up write that hands a new connection (or any request) to a loop finds the eventfd counter saturated:
+	// declared retryable by the code itself, so the connection being handed over is served all the same
+	add(vsys.CEfdWrite, "", true, true, unix.EAGAIN)
 	// the same calls at specific framework call sites that the plain call index reaches rarely:
 	// the flush path on a writable event, the residual flush in close, the re-arming after a partial write
 	for _, sf := range []fault{
